@@ -300,7 +300,7 @@ def main():
     except Unsupported as u:
         status = 2
         print("INCONCLUSIVE: unsupported: %s" % u)
-    if failures and status == 0:
+    if failures:  # a counterexample stands even if a later scenario met an unmodelled call (it is replayed natively anyway)
         status = 1
     out = {"functions_encoded": sorted(stats["functions"]), "scenarios": stats["scenarios"], "paths": stats["paths"], "paths_proved": stats["proved"],
            "queries": stats["queries"], "solver_s": round(stats["solver_s"], 2), "wall_s": round(time.time() - t0, 2), "failures": failures[:12], "samples": samples}
